@@ -348,6 +348,7 @@ def attach(tr):
                     rec["pend"] = (pend_before, (len(self._pending_place), len(self._pending_cancel), len(self._pending_update), len(self._pending_replace)))
                     raise
                 rec["result"] = res
+                rec["limits_after"] = (strategy.max_order_exposure, strategy.max_selection_exposure, strategy.max_market_exposure)
                 if res and rec["position"] is not None:
                     # acknowledgement discipline (C01 domain note): an earlier order on the selection was still unacknowledged
                     if any(v["status"] == "PENDING" and tuple(v["sel"]) == (order.selection_id, order.handicap) and v["o"] != k for v in rec["position"]):
@@ -630,9 +631,11 @@ def attach(tr):
     _wrap(BaseFlumine, "_process_close_market", mk_close)
 
     def mk_remove(orig):
-        def _remove_market(self, market, clear=True):
+        def _remove_market(self, market, *a, **kw):
+            # (arguments are passed through untouched: a hook must not depend on the exact signature it wraps)
+            clear = kw.get("clear", a[0] if a else True)
             TR.removes.append({"seq": TR.nseq(), "tick": TR.tick, "market": market.market_id, "clear": clear, "closed": market.closed})
-            return orig(self, market, clear)
+            return orig(self, market, *a, **kw)
 
         return _remove_market
 
@@ -666,9 +669,10 @@ def attach(tr):
     _wrap(BaseFlumine, "log_control", mk_log)
 
     def mk_txn(orig):
-        def add_transaction(self, count, failed=False):
+        def add_transaction(self, count, *a, **kw):
+            failed = kw.get("failed", a[0] if a else False)
             TR.txn.append({"seq": TR.nseq(), "tick": TR.tick, "clock": TR.clock, "client": self.client.username, "count": count, "failed": failed})
-            return orig(self, count, failed)
+            return orig(self, count, *a, **kw)
 
         return add_transaction
 
@@ -857,6 +861,8 @@ class ScriptedStrategy(BaseStrategy):
         self.by_step = collections.defaultdict(list)
         for act in script.get("actions", []):
             # "via": [market, step] - the request on market act["m"] is made while an update of ANOTHER market is being processed
+            if act.get("cb") == "closed":
+                continue
             self.by_step[tuple(act["via"]) if act.get("via") else (act["m"], act["at"])].append(act)
         self.refs = {}  # ref -> order
         self.trade_refs = {}
@@ -865,6 +871,22 @@ class ScriptedStrategy(BaseStrategy):
         self.cb_count = collections.Counter()
         self.received = []  # (callback kind, market, publish time) in order
         self.line_info = script.get("line_info")
+        self.held = {}  # market id -> Transaction kept open across updates ("held": True actions go through it)
+        self.budgets = script.get("budgets")  # {"sel,hc": max_selection_exposure} loaded in the validate_order hook
+        self.touch_contexts_on_close = script.get("touch_contexts_on_close", False)
+        # actions triggered from process_closed_market: {"m": closing market, "cb": "closed", "target": other market, ...}
+        self.on_close = collections.defaultdict(list)
+        for act in script.get("actions", []):
+            if act.get("cb") == "closed":
+                self.on_close[act["m"]].append(act)
+
+    def validate_order(self, runner_context, order):
+        # a strategy that trades runners with different budgets loads the budget of the order's runner in its hook
+        if self.budgets is not None:
+            b = self.budgets.get("%s,%s" % (order.selection_id, order.handicap))
+            if b is not None:
+                self.max_selection_exposure = b
+        return super().validate_order(runner_context, order)
 
     # -- helpers
     def _order_for(self, act):
@@ -930,6 +952,8 @@ class ScriptedStrategy(BaseStrategy):
                 kw = {}
                 if act.get("client") is not None and tx is None:
                     kw["client"] = list(self.clients)[act["client"]]
+                if act.get("execute") is False:
+                    kw["execute"] = False  # filed in the blotter, never sent
                 if act.get("in_trade_ctx"):
                     with order.trade:
                         res = target.place_order(order, market_version=mv, force=act.get("force", False), **kw)
@@ -961,6 +985,39 @@ class ScriptedStrategy(BaseStrategy):
                             # fault injection in the middle of a callback, inside the transaction block
                             self.tr.injected.append({"seq": self.tr.nseq(), "tick": self.tr.tick, "strategy": self.name, "kind": "in_tx", "n": i})
                             raise ValueError("injected inside transaction block of %s" % self.name)
+            elif op == "hold_open":
+                # a transaction taken now and used in later updates
+                self.held[market.market_id] = market.transaction()
+            elif op == "held":
+                t = self.held.get(market.market_id)
+                if t is None:
+                    self._log(act, skipped="no held transaction")
+                    return
+                for sub in act["items"]:
+                    self._do(market, sub, tx=t)
+                n = t.execute()
+                self._log({"op": "execute-held"}, result=n)
+            elif op == "trade_ctx_raise":
+                # the strategy wraps several requests in `with trade:`; one of them is refused with an exception that leaves the block
+                order = self._order_for(act)
+                if order is None:
+                    return
+                try:
+                    with order.trade:
+                        for sub in act.get("items", ()):
+                            self._do(market, sub)
+                        target.cancel_order(order)  # raises OrderUpdateError unless the order happens to be executable
+                        target.replace_order(order, new_price=order.order_type.price)  # same price: always refused with an exception
+                except FlumineException as e:
+                    self._log(act, exc=type(e).__name__)
+            elif op == "clear_context":
+                # strategy bookkeeping kept in market.context is rebuilt from scratch
+                market.context = {"mine": self.name}
+            elif op == "real_time_raise":
+                # the documented real_time() block; the work inside it fails
+                self.tr.injected.append({"seq": self.tr.nseq(), "tick": self.tr.tick, "strategy": self.name, "kind": "real_time", "n": 0})
+                with market.flumine.simulated_datetime.real_time():
+                    raise ValueError("injected inside real_time() of %s" % self.name)
             elif op == "raise":
                 raise (FlumineException if act.get("flumine") else ValueError)("injected by script")
         except FlumineException as e:
@@ -991,6 +1048,17 @@ class ScriptedStrategy(BaseStrategy):
 
     def process_closed_market(self, market, market_book):
         self.received.append(("closed", market.market_id, market_book.publish_time_epoch))
+        if self.touch_contexts_on_close:
+            # end-of-market bookkeeping reads the runner accounting of every order
+            for o in market.blotter.strategy_orders(self):
+                self.get_runner_context(*o.lookup)
+                self.has_executable_orders(*o.lookup) if hasattr(self, "has_executable_orders") else None
+        for act in self.on_close.get(market.market_id, ()):
+            target = market.flumine.markets.markets.get(act.get("target", market.market_id))
+            if target is None or target.closed or target.market_book is None:
+                self._log(act, exc="target-market-not-available")
+                continue
+            self._do(target, dict(act, m=target.market_id))
 
     def process_market_book(self, market, market_book):
         self._enter("book", market, market_book)
